@@ -167,6 +167,20 @@ def build_paths(edges, rng, max_len, max_paths):
                 want -= hit; keep.append(p)
             else:
                 rest.append(p)
+        # ... and up to three paths per graph in which a set the pool already knew is broadcast by
+        # the wallet and the wallet is restarted afterwards (is the set recorded and re-loaded?)
+        def prebcast_then_restart(p):
+            seen = False
+            for j in p:
+                a, rp = E[j][2]["act"], E[j][2]["reply"]
+                if a["op"] == "Bcast" and a.get("pre") and rp.get("r") == "acc":
+                    seen = True
+                elif seen and a["op"] == "Restart":
+                    return True
+            return False
+        special = [p for p in rest if prebcast_then_restart(p)][:3]
+        rest = [p for p in rest if not any(p is q for q in special)]
+        keep += special
         paths = (keep + rest)[:max(max_paths, len(keep))]
     cov = set()
     for p in paths:
